@@ -1,6 +1,6 @@
 import numpy as np
 import numbers
-from .normal_form_game import NormalFormGame
+from .normal_form_game import NormalFormGame, Player
 from ..util import check_random_state, rng_integers
 from .random import random_pure_actions
 
@@ -42,7 +42,12 @@ class LogitDynamics:
             self.g = NormalFormGame(data)
 
         self.N = self.g.N
-        self.players = self.g.players
+        # Own Player objects (sharing the payoff arrays): the choice cdfs
+        # stored on them below must not leak into other dynamics built on
+        # the same game
+        self.players = tuple(
+            Player(player.payoff_array) for player in self.g.players
+        )
         self.nums_actions = self.g.nums_actions
 
         self.beta = beta
